@@ -787,6 +787,25 @@ func r18d(c *core.Ctx) {
 		}
 		c.Check(found, "closeImpl-"+e.key, ci.Pos(), ci, "closeImpl "+e.need, "")
 	}
+	// …on every path: each stage is passed on all paths from entry to return (loops: their header load)
+	stages := []struct {
+		key  string
+		pass func(in ssa.Instruction) bool
+	}{
+		{"cancel", func(in ssa.Instruction) bool { ci2, ok := in.(ssa.CallInstruction); return ok && effs[0].pred(ci2) }},
+		{"limiter", func(in ssa.Instruction) bool { ci2, ok := in.(ssa.CallInstruction); return ok && effs[1].pred(ci2) }},
+		{"cache", func(in ssa.Instruction) bool { v, ok := in.(ssa.Value); return ok && core.IsFieldLoad(v, "router", "cache") }},
+		{"upstreams", func(in ssa.Instruction) bool { v, ok := in.(ssa.Value); return ok && core.IsFieldLoad(v, "router", "upstreams") }},
+		{"listeners", func(in ssa.Instruction) bool { v, ok := in.(ssa.Value); return ok && core.IsFieldLoad(v, "router", "serverClosers") }},
+	}
+	for _, st := range stages {
+		skipped := core.Reach(ci, nil, core.IsReturn, st.pass)
+		have := ""
+		if skipped != nil {
+			have = "the return at " + c.Rel(skipped.Pos()) + " is reachable without this stage"
+		}
+		c.Check(skipped == nil, "closeImpl-always-"+st.key, ci.Pos(), ci, "closeImpl reaches its `"+st.key+"` stage on every path (no early return skips it)", have)
+	}
 	// run: deferred close on error
 	deferOK := false
 	for _, call := range core.Calls(run) {
